@@ -126,6 +126,7 @@ var (
 	fVerif = flag.String("verif", "/verif", "verif root")
 	fBin   = flag.String("bin", "", "directory with simworker and simworker-race")
 	fOut   = flag.String("out", "", "where evidence/, replays/ and .tmp/ live (default: the verif root)")
+	fAuto  = flag.Int("autopoints", -1, "scheduling points inserted by astyield into the scratch copy (-1: not instrumented)")
 	fScale = flag.Float64("scale", 1, "scale every phase budget (testing)")
 )
 
@@ -545,6 +546,7 @@ func (e *evidence) write(path string) {
 		"components_real":                   meta.real,
 		"components_stub":                   meta.stub,
 		"known_findings_hit":                e.known,
+		"automatic_scheduling_points_inserted_in_scratch_copy": *fAuto,
 	}
 	doc := map[string]any{
 		"property_id": e.prop,
